@@ -204,6 +204,16 @@ def sir_guards(repo, rep):
             rep.ob("H-guard", ok2, "_process_trans_SIR_: only an earlier infection replaces the predicted one",
                    func=h, node=s.node, construct="guard %s < pred_inf_time[v]: %s" % (short(tvar), ok2),
                    detail="" if ok2 else "scheduling is not guarded by `inf_time < pred_inf_time[v]`")
+            # nothing else may stand between a new infection and its transmissions
+            enc = [("%s" if pol else "not (%s)") % short(fx) for fx, pol in c.enclosing_conditions()]
+            allowed = {"status[target] == 'S'", "%s <= rec_time[target]" % short(tvar),
+                       "%s < pred_inf_time[%s]" % (short(tvar), short(v)), "%s <= pred_inf_time[%s]" % (short(tvar), short(v)),
+                       "%s <= Q.tmax" % short(tvar), "%s < Q.tmax" % short(tvar)}
+            extra = [x for x in enc if x not in allowed]
+            rep.ob("H-guard", not extra, "_process_trans_SIR_: transmissions of a new infection depend on nothing but the stated tests",
+                   func=h, node=s.node, construct="scheduling also conditional on %s" % extra,
+                   detail="" if not extra else "scheduling of transmissions is additionally conditional on %s: e.g. a node whose recovery "
+                   "falls after tmax would never transmit" % extra)
             # pred_inf_time[v] = inf_time paired in the same block
             blk2 = c.parents[-1].body if c.parents else []
             paired = any(isinstance(x, ast.Assign) and isinstance(v, ast.Name)
